@@ -330,42 +330,7 @@ def run_config(chk, ctx, name):
                            "(it must be a function of parent seed/identifier AND parent leaf)" % (ai, g.path, sorted(dd["args"])), where=g.loc(rb))
                     chk.count("child_components", 1)
 
-    # P2: inside the decomposition routine
-    dx = expr.Expr(F, dfn)
-    writes = []
-    for b, i, s in dfn.iter_stmts():
-        if s["k"] == "assign" and s["place"]["proj"] and s["place"]["proj"][0]["k"] == "index" and not dfn.blocks[b]["cleanup"]:
-            writes.append((b, s))
-    chk.ob("P2.single-element-write", dfn.key + tag, len(writes) == 1, "expected one element write in %s, found %d" % (dfn.path, len(writes)), where=dfn.loc())
-    if len(writes) == 1:
-        b, s = writes[0]
-        ie = dx.of_local(s["place"]["proj"][0]["local"], 0)
-        ve = dx.of_rvalue(s["rv"], 0)
-        item = item_of(ie)
-        hs = [x for x in expr.walk(ve) if x[0] == "field" and x[2] == "tree_height"]
-        h_same_item = bool(hs) and all(item_of(x) == item for x in hs) and item is not None
-        masks = [x for x in expr.walk(ve) if x[0] == "bin" and x[1] in ("BitAnd", "Rem")]
-        chk.ob("P2.mask-uses-own-level-height", dfn.key + tag, h_same_item and bool(masks) and ie[0] == "field" and ie[2] == "0",
-               "element[%s] := %s : index and height do not come from the same level item" % (ie, ve), where=dfn.loc(b))
-        # the running value is shifted by the same height
-        cnt_vars = [x for x in expr.walk(ve) if x[0] == "var"]
-        shift_ok = False
-        for v in cnt_vars:
-            for d in dx.defs_exprs(v[1]):
-                if d[0] == "bin" and d[1] in ("Shr", "Div") and d[2] == v:
-                    hh = [x for x in expr.walk(d[3]) if x[0] == "field" and x[2] == "tree_height"]
-                    if hh and all(item_of(x) == item for x in hh):
-                        shift_ok = True
-                if d == ("field", ("arg", 1), cfield):
-                    pass
-        chk.ob("P2.shift-uses-own-level-height", dfn.key + tag, shift_ok,
-               "the running counter is not shifted by the height of the level just extracted", where=dfn.loc(b))
-        # bottom-up: the iteration is reversed
-        rev = any(x[0] == "call" and x[1].endswith("::rev") for x in expr.walk(ie))
-        chk.ob("P2.levels-visited-bottom-up", dfn.key + tag, rev,
-               "the decomposition loop does not visit levels in reverse (bottom level least significant): %s" % (ie,), where=dfn.loc(b))
-        init = any(d == ("field", ("arg", 1), cfield) for v in cnt_vars for d in dx.defs_exprs(v[1]))
-        chk.ob("P2.starts-from-counter", dfn.key + tag, init, "the running value is not initialised from the counter field", where=dfn.loc())
+    decomposition_rules(chk, F, dfn, cfield, tag)
 
     # ---------------- G1 / G2 ----------------
     # G1: the function returning the one-time private key type from &mut LMS private key
@@ -409,6 +374,100 @@ def run_config(chk, ctx, name):
         g = gf.find_guards(sfn, dep2, lms_sign_blocks)
         chk.ob("G2.GF-SIGNED-ONCE", sfn.key + tag, len(g) >= 1 and bool(lms_sign_blocks),
                "%s signs without first testing whether this expanded key already produced its signature" % sfn.path, where=sfn.loc())
+
+
+def decomposition_rules(chk, F, dfn, cfield, tag, prefix="P2"):
+    """P2: structure of the counter decomposition routine `dfn`."""
+    dx = expr.Expr(F, dfn)
+    writes = []
+    for b, i, s in dfn.iter_stmts():
+        if s["k"] == "assign" and s["place"]["proj"] and s["place"]["proj"][0]["k"] == "index" and not dfn.blocks[b]["cleanup"]:
+            writes.append((b, s))
+    chk.ob(prefix + ".single-element-write", dfn.key + tag, len(writes) == 1, "expected one element write in %s, found %d" % (dfn.path, len(writes)), where=dfn.loc())
+    if len(writes) == 1:
+        b, s = writes[0]
+        ie = dx.of_local(s["place"]["proj"][0]["local"], 0)
+        ve = dx.of_rvalue(s["rv"], 0)
+        item = item_of(ie)
+        hs = [x for x in expr.walk(ve) if x[0] == "field" and x[2] == "tree_height"]
+        h_same_item = bool(hs) and all(item_of(x) == item for x in hs) and item is not None
+        masks = [x for x in expr.walk(ve) if x[0] == "bin" and x[1] in ("BitAnd", "Rem")]
+        chk.ob(prefix + ".mask-uses-own-level-height", dfn.key + tag, h_same_item and bool(masks) and ie[0] == "field" and ie[2] == "0",
+               "element[%s] := %s : index and height do not come from the same level item" % (ie, ve), where=dfn.loc(b))
+        # the running value is shifted by the same height
+        cnt_vars = [x for x in expr.walk(ve) if x[0] == "var"]
+        shift_ok = False
+        for v in cnt_vars:
+            for d in dx.defs_exprs(v[1]):
+                if d[0] == "bin" and d[1] in ("Shr", "Div") and d[2] == v:
+                    hh = [x for x in expr.walk(d[3]) if x[0] == "field" and x[2] == "tree_height"]
+                    if hh and all(item_of(x) == item for x in hh):
+                        shift_ok = True
+                if d == ("field", ("arg", 1), cfield):
+                    pass
+        chk.ob(prefix + ".shift-uses-own-level-height", dfn.key + tag, shift_ok,
+               "the running counter is not shifted by the height of the level just extracted", where=dfn.loc(b))
+        # bottom-up: the iteration is reversed
+        rev = any(x[0] == "call" and x[1].endswith("::rev") for x in expr.walk(ie))
+        chk.ob(prefix + ".levels-visited-bottom-up", dfn.key + tag, rev,
+               "the decomposition loop does not visit levels in reverse (bottom level least significant): %s" % (ie,), where=dfn.loc(b))
+        init = any(d == ("field", ("arg", 1), cfield) for v in cnt_vars for d in dx.defs_exprs(v[1]))
+        chk.ob(prefix + ".starts-from-counter", dfn.key + tag, init, "the running value is not initialised from the counter field", where=dfn.loc())
+
+
+def key_anchors(F, A):
+    """Role-resolved anchors shared by C03 / C05 / C13."""
+    wr, leaves, S = zz.secret_sets(F, A)
+    K, wipe_fn = c16.find_wipe(F, A, S)
+    kmember, C, cfield = counter_type(F, K)
+    # counter increment: the function of C's impl containing the `+ 1` write
+    inc_fn = None
+    for f in F.fns.values():
+        if not self_is(f, C):
+            continue
+        for b, i, s in f.iter_stmts():
+            if s["k"] == "assign" and not f.blocks[b]["cleanup"]:
+                pr = s["place"]["proj"]
+                if pr and pr[-1]["k"] == "field" and pr[-1].get("adt") == C and pr[-1].get("name") == cfield:
+                    kind, ok = classify_counter_write(F, f, C, cfield, s=s)
+                    if kind == "increment-by-one":
+                        inc_fn = f
+    if inc_fn is None:
+        raise AnchorLost("counter increment (`count + 1` inside %s)" % C)
+    # key-level increment: the K method that hands `&mut self.<counter>` to inc_fn
+    key_inc = None
+    for f in F.fns.values():
+        if self_is(f, K) and f.kind != "Closure":
+            for b, t in f.calls():
+                if F.call_targets(f, t) == [inc_fn.path]:
+                    key_inc = f
+    if key_inc is None:
+        raise AnchorLost("key-level increment calling %s" % inc_fn.path)
+    xf = _expansion_fn(F, A)
+    ex = expr.Expr(F, xf)
+    dfn = None
+    for b, t in xf.calls():
+        if t["args"] and ex.of_operand(t["args"][0]) == ("field", ("arg", 1), kmember):
+            tps = F.call_targets(xf, t)
+            if tps:
+                dfn = F.fns[tps[0]]
+    if dfn is None:
+        raise AnchorLost("counter decomposition routine")
+    # lifetime: fn(&expanded key) -> u64
+    xadt = xf.j["output"]["args"][0]["path"]
+    lt = [f for f in F.fns.values() if f.j.get("impl", {}).get("self_ty", {}).get("path") == xadt and f.j.get("output", {}).get("s") == "u64" and len(f.j.get("inputs", [])) == 1]
+    if len(lt) != 1:
+        raise AnchorLost("lifetime routine (fn(&%s) -> u64)" % xadt)
+    decoder = None
+    for b, t in xf.calls():
+        tps = F.call_targets(xf, t)
+        if tps and t["args"] and ex.of_operand(t["args"][0])[0] == "field" and ex.of_operand(t["args"][0])[1] == ("arg", 1) and \
+                F.fns[tps[0]].j.get("output", {}).get("path") == flow.RESULT and tps[0] != dfn.path:
+            decoder = F.fns[tps[0]]
+    if decoder is None:
+        raise AnchorLost("parameter decoder")
+    return dict(K=K, wipe=F.fn(wipe_fn), kmember=kmember, C=C, cfield=cfield, inc=inc_fn, key_inc=key_inc, expansion=xf, decomposition=dfn,
+                lifetime=lt[0], decoder=decoder, S=S)
 
 
 def _leaf_dispenser(F, A):
